@@ -139,7 +139,15 @@ WView(w) == [kind |-> WKind(w), exp |-> WExp(w),
              c |-> (IF WKind(w) = "const" THEN WConstOf(w) ELSE QOne),
              arr |-> (IF WKind(w) = "array" THEN WArrOf(w) ELSE <<>>),
              tag |-> (IF WKind(w) \in {"cinner", "cnorm", "cdist"} THEN w.s ELSE "")]
-View(spc) == [shape |-> ShapeOf(spc), dt |-> DtypeOf(spc), fld |-> FieldOf(spc), w |-> WView(WeightingOf(spc))]
+\* nw: the weightings of the NESTED product spaces (pre-order), so that a view shows every weighting that is
+\* not a leaf's own
+RECURSIVE NestedW(_), NestedWFrom(_, _)
+NestedWFrom(subs, k) ==
+  IF k > Len(subs) THEN <<>>
+  ELSE (IF subs[k].cls = "PSpace" THEN <<WView(subs[k].sub[1])>> \o NestedW(subs[k]) ELSE <<>>) \o NestedWFrom(subs, k + 1)
+NestedW(spc) == IF spc.cls = "PSpace" THEN NestedWFrom(spc.sub, 2) ELSE <<>>
+View(spc) == [shape |-> ShapeOf(spc), dt |-> DtypeOf(spc), fld |-> FieldOf(spc), w |-> WView(WeightingOf(spc)),
+              nw |-> NestedW(spc)]
 
 \* astype / real_space / complex_space: everything but the dtype (and hence the field) is kept
 AstypeView(spc, dt) == [View(spc) EXCEPT !.dt = dt, !.fld = FieldOfDtype(dt)]
@@ -167,8 +175,9 @@ PSelectView(spc, idx) ==
   LET w == WView(WeightingOf(spc))
       cs == Comps(spc)
   IN  [shape |-> <<QI(-Len(idx))>> \o ShapesFrom([k \in 1..Len(idx) |-> cs[idx[k]]], 1),
-       dt |-> DtypeOf(spc), fld |-> FieldOf(spc),
-       w |-> IF w.kind = "array" THEN [w EXCEPT !.arr = [k \in 1..Len(idx) |-> w.arr[idx[k]]]] ELSE w]
+       dt |-> DtStr(LeafDtsFrom([k \in 1..Len(idx) |-> cs[idx[k]]], 1)), fld |-> FieldOf(spc),
+       w |-> IF w.kind = "array" THEN [w EXCEPT !.arr = [k \in 1..Len(idx) |-> w.arr[idx[k]]]] ELSE w,
+       nw |-> NestedWFrom([k \in 1..Len(idx) |-> cs[idx[k]]], 1)]
 
 (* ------------------- derived-space cases: enumeration, expectation, claims -------------- *)
 (* A case is [op, dt, idx, form]:                                                          *)
@@ -278,7 +287,7 @@ ViewDiff(obs, exp, withw) ==
        (IF obs.shape # exp.shape THEN {"shape"} ELSE {})
   \cup (IF obs.dt # exp.dt THEN {"dtype"} ELSE {})
   \cup (IF obs.fld # exp.fld THEN {"field"} ELSE {})
-  \cup (IF withw /\ obs.w # exp.w THEN {"weighting"} ELSE {})
+  \cup (IF withw /\ (obs.w # exp.w \/ obs.nw # exp.nw) THEN {"weighting"} ELSE {})
 \* result [k |-> "ok" | "raise", view] against layer A: the set of failing clause stems
 DerivedDiff(spc, c, res) ==
   IF ~DerivedClaimed(spc, c) THEN {}
@@ -354,4 +363,17 @@ HClass(kind) == IF kind \in {"TW", "PW"} THEN "weighting" ELSE kind
 HEq(st, a, b) ==
   /\ HClass(a.kind) = HClass(b.kind)
   /\ IF a.kind \in CopyKinds THEN HContent(st, a) = HContent(st, b) ELSE a.w = b.w
+
+(* ------------------ derived sets: parts of a partition (derived vs direct) ---------------- *)
+\* RectPartition: .set, .grid, .byaxis[idx] are the interval product / grid / partition of the selected axes
+PartCases(d) ==
+  LET nd == Len(d.sub[2].q) IN
+       {[op |-> "set", idx |-> <<>>], [op |-> "grid", idx |-> <<>>]}
+  \cup {[op |-> "byaxis", idx |-> ix] : ix \in {<<a>> : a \in 1..nd} \cup (IF nd = 2 THEN {<<2, 1>>, <<1, 2>>} ELSE {})}
+PartDerivedDesc(d, c) ==
+  LET iv == d.sub[1]  gr == d.sub[2] IN
+  CASE c.op = "set" -> iv
+    [] c.op = "grid" -> gr
+    [] c.op = "byaxis" -> [d EXCEPT !.sub = <<[iv EXCEPT !.q = <<SelSeq(iv.q[1], c.idx), SelSeq(iv.q[2], c.idx)>>],
+                                              [gr EXCEPT !.q = SelSeq(gr.q, c.idx)]>>]
 =============================================================================
